@@ -51,7 +51,7 @@ def proj_fields(projs):
 class Fn:
     __slots__ = (
         "d", "id", "kind", "phase", "parent", "root", "file", "line", "line_hi", "argc", "ret",
-        "upvars", "locals", "blocks", "_defs", "_preds", "_dom", "_pdom", "crate", "_uses",
+        "upvars", "locals", "blocks", "_defs", "_preds", "_dom", "_pdom", "crate", "_uses", "origin", "inlined", "inlined_calls",
     )
 
     def __init__(self, d, files, crate):
@@ -76,6 +76,9 @@ class Fn:
         self._dom = None
         self._pdom = None
         self._uses = None
+        self.origin = None
+        self.inlined = False
+        self.inlined_calls = []
 
     # ---- naming
     @property
@@ -311,7 +314,26 @@ class Crate:
         return [f for f in self.fns.values() if (f.id == suffix or f.id.endswith("::" + suffix)) and "promoted[" not in f.id]
 
     def real_fns(self):
-        return [f for f in self.fns.values() if f.phase != "promoted"]
+        return [f for f in self.fns.values() if f.phase not in ("promoted", "const")]
+
+    def const_literals(self, path, depth=0):
+        """string literals of a constant item (and of its promoted bodies / constants it refers to)"""
+        out = set()
+        if depth > 3:
+            return out
+        for fid, g in self.fns.items():
+            if fid == path or fid.startswith(path + "::promoted["):
+                for bb, si, pl, rv, sp in g.assigns():
+                    ops = rv[2] if rv[0] == "agg" else [rv[1]] if rv[0] in ("use",) else []
+                    for o in ops:
+                        if isinstance(o, list) and o[0] == "c":
+                            if "s" in o[1]:
+                                out.add(o[1]["s"])
+                            elif "named" in o[1]:
+                                out |= self.const_literals(o[1]["named"], depth + 1)
+                            elif "promoted" in o[1]:
+                                out |= self.const_literals("%s::promoted[%d]" % (o[1]["of"], o[1]["promoted"]), depth + 1)
+        return out
 
     def span_str(self, sp):
         return "%s:%d" % (self.files[sp[0]], sp[1])
@@ -655,7 +677,7 @@ class Origins:
         return self.of_local(fn, l, pf + tuple(fields), depth, stack)
 
     def of_local(self, fn, l, fields=(), depth=0, stack=frozenset()):
-        key = (fn.id, l, tuple(fields))
+        key = (fn.id, bool(getattr(fn, "inlined", False)), l, tuple(fields))
         if key in self._memo:
             return self._memo[key]
         if key in stack or depth > 60:
@@ -730,3 +752,127 @@ class Origins:
                     out.add(("expr", fn.id, k))
         self._memo[key] = out
         return out
+
+
+# ----------------------------------------------------------------------------- inlined views
+def _map_place(p, lo, bo):
+    if isinstance(p, int):
+        return p + lo
+    projs = []
+    for e in p[1]:
+        if isinstance(e, list) and e[0] == "i":
+            projs.append(["i", e[1] + lo])
+        else:
+            projs.append(e)
+    return [p[0] + lo, projs]
+
+
+def _map_op(op, lo, bo):
+    if op[0] in ("cp", "mv"):
+        return [op[0], _map_place(op[1], lo, bo)]
+    return op
+
+
+def _map_rv(rv, lo, bo):
+    k = rv[0]
+    if k in ("use", "repeat"):
+        return [k, _map_op(rv[1], lo, bo)] + rv[2:]
+    if k == "ref":
+        return [k, rv[1], _map_place(rv[2], lo, bo)]
+    if k in ("rawptr", "discr"):
+        return [k, _map_place(rv[1], lo, bo)]
+    if k == "cast":
+        return [k, rv[1], _map_op(rv[2], lo, bo), rv[3]]
+    if k == "bin":
+        return [k, rv[1], _map_op(rv[2], lo, bo), _map_op(rv[3], lo, bo)]
+    if k == "un":
+        return [k, rv[1], _map_op(rv[2], lo, bo)]
+    if k == "agg":
+        return [k, rv[1], [_map_op(o, lo, bo) for o in rv[2]]]
+    return rv
+
+
+def _map_stmt(s, lo, bo):
+    if s[0] == "=":
+        return ["=", _map_place(s[1], lo, bo), _map_rv(s[2], lo, bo), s[3]]
+    if s[0] in ("dead", "live"):
+        return [s[0], s[1] + lo]
+    if s[0] == "setdiscr":
+        return [s[0], _map_place(s[1], lo, bo), s[2]]
+    return s
+
+
+def _map_term(t, lo, bo):
+    k = t[0]
+    b = lambda x: None if x is None else x + bo
+    if k == "goto":
+        return ["goto", b(t[1])]
+    if k == "switch":
+        return ["switch", _map_op(t[1], lo, bo), [[v, b(x)] for v, x in t[2]], b(t[3]), t[4]]
+    if k == "drop":
+        return ["drop", _map_place(t[1], lo, bo), b(t[2]), b(t[3]), t[4]]
+    if k == "call":
+        c = dict(t[1])
+        c["args"] = [_map_op(a, lo, bo) for a in c["args"]]
+        c["dest"] = _map_place(c["dest"], lo, bo)
+        c["target"] = b(c["target"])
+        c["unwind"] = b(c["unwind"])
+        if "fnptr" in c:
+            c["fnptr"] = _map_op(c["fnptr"], lo, bo)
+        return ["call", c]
+    if k == "assert":
+        return ["assert", _map_op(t[1], lo, bo), t[2], t[3], [_map_op(o, lo, bo) for o in t[4]], b(t[5]), b(t[6]), t[7]]
+    if k == "yield":
+        return ["yield", _map_op(t[1], lo, bo), b(t[2]), _map_place(t[3], lo, bo), b(t[4]), t[5]]
+    return t
+
+
+def inline_fn(crate, f, cg=None, depth=3, max_blocks=600, max_total=6000, pred=None):
+    """A copy of f in which calls to local, non-recursive plain functions/methods are replaced by the callee's body
+    (parameters bound by assignments, `return` turned into an assignment to the call's destination + goto).
+    Original blocks keep their indices. `origin[bb]` names the function a block came from."""
+    import copy
+    if f.kind not in ("fn", "method", "closure", "coroutine"):
+        return f
+    # functions from which f is reachable (to refuse recursion)
+    blocks = copy.deepcopy(f.blocks)
+    locals_ = list(f.locals)
+    origin = [f.id] * len(blocks)
+    inlined_calls = []  # (call-site block, callee id, original call dict)
+    level = [0] * len(blocks)
+    stack_of = [(f.id,)] * len(blocks)
+    i = 0
+    while i < len(blocks) and len(blocks) < max_total:
+        t = blocks[i]["t"]
+        if t[0] == "call" and level[i] < depth:
+            c = t[1]
+            g = crate.fns.get(c.get("res")) if c.get("res_local") else None
+            if g is not None and g.kind in ("fn", "method") and g.phase in ("elaborated",) and g.id not in stack_of[i] \
+                    and len(g.blocks) <= max_blocks and g.argc == len(c["args"]) and (pred is None or pred(g)):
+                lo, bo = len(locals_), len(blocks)
+                inlined_calls.append((i, g.id, c))
+                locals_.extend(g.locals)
+                for gb in g.blocks:
+                    nb = {"s": [_map_stmt(s, lo, bo) for s in gb["s"]], "t": _map_term(gb["t"], lo, bo), "c": gb["c"]}
+                    if nb["t"][0] == "ret":
+                        nb["s"].append(["=", c["dest"], ["use", ["mv", lo]], c["span"]])
+                        nb["t"] = ["goto", c["target"]] if c["target"] is not None else ["unreachable"]
+                    blocks.append(nb)
+                    origin.append(g.id)
+                    level.append(level[i] + 1)
+                    stack_of.append(stack_of[i] + (g.id,))
+                for ai, a in enumerate(c["args"]):
+                    blocks[i]["s"].append(["=", lo + 1 + ai, ["use", a], c["span"]])
+                blocks[i]["t"] = ["goto", bo]
+        i += 1
+    d = dict(f.d)
+    d["blocks"] = blocks
+    d["locals"] = locals_
+    nf = Fn(d, [f.file] + [""] * 64, crate)
+    nf.file = f.file
+    nf.line = f.line
+    nf.line_hi = f.line_hi
+    nf.origin = origin
+    nf.inlined_calls = inlined_calls
+    nf.inlined = True
+    return nf
